@@ -70,9 +70,9 @@ pub fn run(ctx: &Ctx) -> Outcome {
                                         expect.push(rf::belt_counter_block(&c, iv, b));
                                         b += 1;
                                     }
-                                    // expected blocks in order among what the cipher received (extra calls tolerated)
+                                    // every expected block among what the cipher received (order, extra calls, memory-served repeats: not prescribed)
                                     let got: Vec<Vec<u8>> = log.iter().filter(|l| l.dir == b'E' && l.input != *iv).map(|l| l.input.clone()).collect();
-                                    ensure!(match_subsequence(&got, &expect).is_ok(), "counter_block_wrong/belt", "{} {} offset {} length {}: blocks fed to E are [{}] want [{}]", d.ty, ivn, off, len, got.iter().map(|b| short(b)).collect::<Vec<_>>().join(" "), expect.iter().map(|b| short(b)).collect::<Vec<_>>().join(" "));
+                                    ensure!(first_missing(&got, &expect).is_none(), "counter_block_wrong/belt", "{} {} offset {} length {}: blocks fed to E are [{}] want [{}]", d.ty, ivn, off, len, got.iter().map(|b| short(b)).collect::<Vec<_>>().join(" "), expect.iter().map(|b| short(b)).collect::<Vec<_>>().join(" "));
                                 }
                                 // encryption and decryption are the same operation: applying the keystream again restores the input
                                 let mut s2 = rec::stream(cfg, d, key, iv);
